@@ -108,7 +108,15 @@ def _work(job):
     stages = [(0, short_t), (2, short_t), (1, short_t), (11, short_t), (0, timeout_ms), (2, timeout_ms), (1, timeout_ms), (12, timeout_ms // 2)]
     tried, t = [], 0.0
     res, reason, backend = UNKNOWN, "", "z3"
-    for variant, budget in stages:
+    for k_stage, (variant, budget) in enumerate(stages):
+        if k_stage == 1 and use_cvc5:
+            # z3's default configuration did not decide it quickly: give cvc5 a short turn before the other z3 configurations
+            r3, t3, reason3 = _check_cvc5(smt2, short_t)
+            tried.append(("cvc5", r3, round(t3, 3)))
+            t += t3
+            if r3 != UNKNOWN:
+                res, reason, backend = r3, reason3, "cvc5"
+                break
         r2, t2, reason2 = _check_z3(smt2, budget, variant)
         label = "z3" if variant == 0 else (f"z3/seed{variant}" if variant >= 10 else f"z3/v{variant}")
         tried.append((label, r2, round(t2, 3)))
